@@ -26,6 +26,7 @@ func propC05() *Property {
 			{ID: "R05.6", Floor: 12, Text: "direction gate: validateServerSegmentDirection (applied to every datagram authenticated by discovery) returns nil only for protocols a client sends (openSessionRequest, closeSession*, *ClientToServer*); Session.input on a server passes only those, on a client only the server-to-client ones — evaluated by constant propagation for every protocol number 0..15", Run: r05_6},
 			{ID: "R05.7", Floor: 1, Text: "a TCP first segment authenticated against a user generation is accepted only if that generation is still the published one after discovery (a credential removed by a completed reload no longer opens a session)", Run: func(c *RC) { ruleRecheckGeneration(c) }},
 			{ID: "R05.8", Floor: 2, Text: "every SetUsers call publishes the new users: a retired credential does not survive a reload (shared with R07.8)", Run: ruleSetUsersPublishes},
+			{ID: "R05.10", Floor: 2, Text: "the datagram parsers accept a datagram only at exactly its announced size", Run: r05_10},
 			{ID: "R05.9", Floor: 4, Text: "every datagram and every first stream segment is looked up in (and recorded by) the replay cache before any decryption, and a replay yields no segment (shared with R06.1, R06.2): observed traffic re-sent by a party without a credential creates nothing", Run: func(c *RC) { r06_1(c); r06_2(c) }},
 			{ID: "R05.5", Floor: 3, Text: "failure branches (stream: readOneSegment error in RunEventLoop; packet: undecryptable datagram, replay) call nothing that may write to the underlay connection before the next read", Run: r05_5},
 		},
@@ -1193,6 +1194,102 @@ func r05_6(c *RC) {
 			default:
 				c.OKH(key, in.Pos(), "%s session, protocol %d (%s): passes whitelist=%v as required", role, k, name, acc)
 			}
+		}
+	}
+}
+
+
+// r05_10: a datagram is accepted only at exactly its announced size. The two
+// packet parsers return a segment only on a path that passed the test
+// "announced payload (+ overhead) + padding == what was received"; a one-sided
+// test (>, <) lets a truncated copy of a genuine first datagram through, which
+// then creates a session and is answered.
+func r05_10(c *RC) {
+	p := c.P
+	for _, fname := range []string{"PacketUnderlay.parseSessionSegment", "PacketUnderlay.parseDataAckSegment"} {
+		fn := p.Fn(protoPkg, fname)
+		if fn == nil {
+			c.Anchor(fname)
+			continue
+		}
+		var mentionsSuffix func(v ssa.Value, d int) bool
+		mentionsSuffix = func(v ssa.Value, d int) bool {
+			if d > 8 || v == nil {
+				return false
+			}
+			if f := fieldOrigin(v); f != nil && f.Name() == "suffixLen" {
+				return true
+			}
+			switch x := v.(type) {
+			case *ssa.BinOp:
+				return mentionsSuffix(x.X, d+1) || mentionsSuffix(x.Y, d+1)
+			case *ssa.Convert:
+				return mentionsSuffix(x.X, d+1)
+			case *ssa.Phi:
+				for _, e := range x.Edges {
+					if mentionsSuffix(e, d+1) {
+						return true
+					}
+				}
+			}
+			return false
+		}
+		isLenParam := func(v ssa.Value) bool {
+			cl, ok := v.(*ssa.Call)
+			if !ok || calleeNameAny(cl) != "len" {
+				return false
+			}
+			// the received bytes: the parameter itself or what is left of it
+			// after the prefix padding was cut off (remaining = remaining[k:])
+			var fromParam func(v ssa.Value, d int) bool
+			fromParam = func(v ssa.Value, d int) bool {
+				if d > 6 {
+					return false
+				}
+				switch x := v.(type) {
+				case *ssa.Parameter:
+					return true
+				case *ssa.Slice:
+					return fromParam(x.X, d+1)
+				case *ssa.Phi:
+					for _, e := range x.Edges {
+						if fromParam(e, d+1) {
+							return true
+						}
+					}
+				}
+				return false
+			}
+			return fromParam(cl.Common().Args[0], 0)
+		}
+		isSum := func(v ssa.Value) bool { return mentionsSuffix(v, 0) }
+		atom := func(cond ssa.Value) (string, int, bool) {
+			v, neg := condAtom(cond)
+			ti := 0
+			if neg {
+				ti = 1
+			}
+			switch {
+			case cmpForm(v, token.EQL, isLenParam, isSum):
+				return "size-exact", ti, true
+			case cmpForm(v, token.NEQ, isLenParam, isSum):
+				return "size-exact", 1 - ti, true
+			}
+			return "", 0, false
+		}
+		ex := &Explorer{Fn: fn, Atom: atom, Assume: map[string]bool{"size-exact": false}}
+		hit := ex.Reach(nil, func(in ssa.Instruction) bool {
+			r, ok := in.(*ssa.Return)
+			return ok && len(r.Results) == 2 && retIsNil(r, 1) && !retIsNil(r, 0)
+		})
+		key := "exact-size@" + fname
+		switch {
+		case ex.Over:
+			c.Undecided(key, fn.Pos(), "exploration budget exceeded")
+		case hit != nil:
+			c.Bad(key, hit.Pos(), "%s can return a segment for a datagram whose size is not exactly the announced payload plus padding (no equality test on that path): a truncated or extended copy of a genuine datagram is accepted, and for a first datagram a session is created and answered", fname)
+		default:
+			c.OKH(key, fn.Pos(), "a segment is returned only after len(received) == announced payload + padding (%d states explored with the equality assumed false)", ex.States)
 		}
 	}
 }
